@@ -249,4 +249,20 @@ CHECKS = {
         note="trusted: assert macros' expansion as seen in HIR; edges with required parameters are skipped by the checker itself",
         technique="static analysis: sibling-agreement of assertion obligations over typed HIR",
         design_ref="DESIGN.md section 4 C25"),
+    "C26": dict(
+        category="other",
+        text="Narrow: identifier hygiene of the stub generator, decided for every schema name. Each emitted identifier is "
+             "Ident::new(f(name)); f is extracted from the typed HIR as a term over the crate's string helpers (format! decoded "
+             "from its lowered template) and evaluated by abstract evaluation of the helpers on every string over the character "
+             "classes they distinguish up to a length bound plus every Rust keyword in every folding capitalisation: the result is "
+             "always a legal non-keyword identifier; the escape table covers the Rust Reference's strict and reserved keywords; "
+             "two names of one namespace that produce one identifier are always rejected by a conflict guard that runs before "
+             "generation; fixed parameter names cannot be produced from schema parameter names; every generated reference (path "
+             "call, as_<variant>() method via the derive crate's own naming function) names a generated definition; the scalar "
+             "type tables agree with FieldValue's accessor signatures. Not decided: that the remaining token streams are "
+             "well-formed Rust (the three pinned stub tests compile them).",
+        note="trusted: string/char model in stdmodel.py (ASCII class behaviour of is_uppercase/to_lowercase), the frozen "
+             "namespace table of generator sites, syn/quote/prettyplease; four genuine parameter-name collisions are listed in known_findings.json",
+        technique="static analysis: term extraction from typed HIR + abstract interpretation of the naming helpers over character classes",
+        design_ref="DESIGN.md section 4 C26"),
 }
